@@ -20,6 +20,44 @@ use std::rc::Rc;
 pub struct C03 {
     quick: KernelSpace,
     thorough: KernelSpace,
+    /// every branch form (6 base and 10 pseudo mnemonics x operand pairs from {zero, t0, t1}),
+    /// forwards and backwards, in main and in a called function
+    branch_forms: Vec<Kernel>,
+}
+
+fn branch_forms() -> Vec<Kernel> {
+    let regs = [ZERO, T0, T1];
+    let mut forms: Vec<Stmt> = Vec::new();
+    for a in regs {
+        for b in regs {
+            for op in ALL_BOPS {
+                forms.push(inst(Inst::Branch(op, a, b, "L1".into())));
+            }
+            for (name, op) in [("bgt", BOp::Blt), ("ble", BOp::Bge), ("bgtu", BOp::Bltu), ("bleu", BOp::Bgeu)] {
+                forms.push(pseudo(format!("{name} {}, {}, L1", rn(a), rn(b)), Inst::Branch(op, b, a, "L1".into())));
+            }
+        }
+        for (name, op, swap) in [("beqz", BOp::Beq, false), ("bnez", BOp::Bne, false), ("bltz", BOp::Blt, false), ("bgez", BOp::Bge, false), ("bgtz", BOp::Blt, true), ("blez", BOp::Bge, true)] {
+            let i = if swap { Inst::Branch(op, ZERO, a, "L1".into()) } else { Inst::Branch(op, a, ZERO, "L1".into()) };
+            forms.push(pseudo(format!("{name} {}, L1", rn(a)), i));
+        }
+    }
+    let mut out = Vec::new();
+    for f in forms {
+        for ctx in [Context::Main, Context::Callee] {
+            // forward: the branch skips an instruction
+            out.push(Kernel {
+                family: "branch-form",
+                program: finish(vec![f.clone(), li(A0, 2), label("L1"), li(A1, 3)], ctx),
+            });
+            // backward: a loop closed by the branch (the counter makes it terminate)
+            out.push(Kernel {
+                family: "branch-form",
+                program: finish(vec![li(T0, 1), label("L1"), addi(T0, T0, -1), li(A0, 2), f.clone(), li(A1, 3)], ctx),
+            });
+        }
+    }
+    out
 }
 
 pub fn ptr(n: &Rc<CfgNode>) -> usize {
@@ -271,10 +309,19 @@ impl C03 {
         C03 {
             quick: KernelSpace::new(KernelBounds::for_tier(Tier::Quick)),
             thorough: KernelSpace::new(KernelBounds::for_tier(Tier::Thorough)),
+            branch_forms: branch_forms(),
         }
     }
     fn space(&self, tier: Tier) -> &KernelSpace {
         tier.pick(&self.quick, &self.thorough)
+    }
+    fn kernel(&self, tier: Tier, case: u64) -> Kernel {
+        let nb = self.branch_forms.len() as u64;
+        if case < nb {
+            return self.branch_forms[case as usize].clone();
+        }
+        let sp = self.space(tier);
+        sp.get(sp.control_part().0 + case - nb)
     }
 
     pub fn run_program(&self, tier: Tier, case: u64, k: &Kernel, acc: &mut Acc) {
@@ -401,7 +448,7 @@ impl Property for C03 {
         "C03"
     }
     fn cases(&self, tier: Tier) -> u64 {
-        self.space(tier).control_part().1
+        self.branch_forms.len() as u64 + self.space(tier).control_part().1
     }
     fn chunk(&self, tier: Tier) -> u64 {
         // many schedules per program: keep worker lifetimes (and leaked graphs) short
@@ -409,23 +456,21 @@ impl Property for C03 {
     }
     fn run_case(&self, tier: Tier, case: u64, acc: &mut Acc) {
         acc.count("cases", 1);
-        let sp = self.space(tier);
-        let k = sp.get(sp.control_part().0 + case);
+        let k = self.kernel(tier, case);
         if case % 9973 == 0 {
             acc.sample(json!({"case": case, "family": k.family, "source": k.program.text()}));
         }
         self.run_program(tier, case, &k, acc);
     }
     fn show(&self, tier: Tier, case: u64) -> String {
-        let k = { let sp = self.space(tier); sp.get(sp.control_part().0 + case) };
+        let k = self.kernel(tier, case);
         format!("[{}]\n{}", k.family, k.program.text())
     }
     fn replay(&self, w: &Value, acc: &mut Acc) {
         if let Some(case) = w["case"].as_u64() {
             for tier in [Tier::Quick, Tier::Thorough] {
-                let sp = self.space(tier);
-                if case < sp.control_part().1 {
-                    let k = sp.get(sp.control_part().0 + case);
+                if case < self.cases(tier) {
+                    let k = self.kernel(tier, case);
                     if Some(k.program.text().as_str()) == w["source"].as_str() {
                         self.run_program(tier, case, &k, acc);
                         return;
@@ -438,7 +483,7 @@ impl Property for C03 {
     fn info(&self, tier: Tier) -> Info {
         let b = KernelBounds::for_tier(tier);
         Info {
-            rule: "every control-flow kernel program (all sequences over 12/14 symbols incl. labels, branches, jumps, calls, returns; 10 skeletons) is analysed under every hash-order schedule within the deviation bound (whole schedule tree when small); each graph is checked structurally by node identity (inverse relations, every edge justified, exit ecalls cut) and every transfer of every explored execution must be an edge, with no executed node reported unreachable. Non-trivial = programs with >= 2 explored schedules or a merged return".into(),
+            rule: "every branch form (6 base and 10 pseudo branch mnemonics x operand pairs over {zero, t0, t1}, forwards and as a loop, in main and in a called function) and every control-flow kernel program (all sequences over 12/14 symbols incl. labels, branches, jumps, calls, returns; 10 skeletons) is analysed under every hash-order schedule within the deviation bound (whole schedule tree when small); each graph is checked structurally by node identity (inverse relations, every edge justified, exit ecalls cut) and every transfer of every explored execution must be an edge, with no executed node reported unreachable. Non-trivial = programs with >= 2 explored schedules or a merged return".into(),
             bounds: json!({"ctl_len": b.ctl_len, "skeleton_slots": b.skel_slots, "deviation_bound": tier.pick(1, 2), "full_tree_below": tier.pick(64, 1024), "initial_states": n_states(tier), "step_horizon": 256}),
             assumptions: vec![
                 "programs in which an explored execution falls off the end of the text are outside the quantifier (their dynamic verdicts are discarded)".into(),
